@@ -493,6 +493,10 @@ func (g *Gen) Next() *Op {
 			op.Digest = Sha256(u.Buf)
 			if g.C.Bool("up.wrongdigest", 1, 6) {
 				op.Digest = g.randomDigest()
+			} else if g.Cfg.AltAlgo && g.C.Bool("up.altalgo", 1, 8) {
+				// the right digest of the content in another registered algorithm: a
+				// registry may refuse it, or accept it and then serve the blob under it
+				op.Digest = Sum([]string{"sha512", "sha384"}[g.C.Int("up.altalgo.which", 2)], u.Buf)
 			}
 			g.dropLive(op.Handle)
 		case UpCancel:
